@@ -16,7 +16,7 @@ func c01Scenario(r *rand.Rand, i int) relayScenario {
 	merges := []int{0, 1, 1024, 8192, 65536}
 	gops := []int{0, 1, 2, 3}
 	caps := []int{0, 1, 3, 10}
-	sc := relayScenario{Stream: fmt.Sprintf("s%d", i), FmtMode: i % 2}
+	sc := relayScenario{Stream: fmt.Sprintf("s%d", i), FmtMode: i % 3}
 	sc.Conf = srv.Conf{
 		RtmpGop: gops[i%4], RtmpGopCap: caps[(i/4)%4], MergeWrite: merges[(i/16)%5],
 		Flv: true, FlvGop: []int{0, 1, 2}[r.Intn(3)], FlvGopCap: caps[r.Intn(4)],
@@ -31,7 +31,7 @@ func c01Scenario(r *rand.Rand, i int) relayScenario {
 	sc.AckEvery = []int{0, 3000, 40000}[(i/5)%3]
 	sc.PubChunk = []int{128, 129, 1000, 4096, 60000}[r.Intn(5)]
 	sh := gen.Shape{Name: "av", Video: true, Audio: true, Meta: true, MetaSdf: r.Intn(2) == 0, Gops: 4 + r.Intn(5), GopLen: 4 + r.Intn(12), AudioPerVid: r.Intn(3),
-		MidMeta: r.Intn(2) == 0, Empties: r.Intn(2) == 0, TsMode: r.Intn(4)}
+		MidMeta: r.Intn(2) == 0, Empties: r.Intn(2) == 0, TsMode: r.Intn(5)}
 	switch r.Intn(8) {
 	case 0:
 		sh.Name, sh.Video = "audio-only", false
@@ -284,7 +284,7 @@ func init() {
 		ID:          "C01",
 		NumCases:    func(tier string, seed int64) int { return c01Sizes(tier) },
 		CaseTimeout: func(string) time.Duration { return 3 * time.Minute },
-		Rule: "one case = one whole-server scenario: seeded config (rtmp gop_num 0..3 × per-GOP cap {0,1,3,10} × merge_write_size {0,1,1024,8192,65536}, flv gop, recording, relay push to a stub target, in half of those cases next to one or two targets that are down and/or one or two further healthy targets, each of which must get the whole stream); RTMP consumers that acknowledge received bytes (message type 3) every 3 000 / 40 000 bytes in two thirds of the cases, a reference RTMP publisher with its own chunk size and header formats sending 60–400 tagged messages (A/V/metadata with and without @setDataFrame, zero-length messages, lengths around multiples of 4096 and of the publisher's chunk size, timestamps across 0xFFFFFF / 2^32 / non-monotonic), 3–7 RTMP / HTTP-FLV / WS-FLV consumers joining and leaving at seeded message indices (exact admission index via the stream hook's processed-count clock). " +
+		Rule: "one case = one whole-server scenario: seeded config (rtmp gop_num 0..3 × per-GOP cap {0,1,3,10} × merge_write_size {0,1,1024,8192,65536}, flv gop, recording, relay push to a stub target, in half of those cases next to one or two targets that are down and/or one or two further healthy targets, each of which must get the whole stream); RTMP consumers that acknowledge received bytes (message type 3) every 3 000 / 40 000 bytes in two thirds of the cases, a reference RTMP publisher with its own chunk size and header formats sending 60–400 tagged messages (A/V/metadata with and without @setDataFrame, zero-length messages, lengths around multiples of 4096 and of the publisher's chunk size, timestamps across 0xFFFFFF / 2^32 / non-monotonic / one forward jump of ≥ 0xFFFFFF ms which a third of the publishers send as a format-1 delta with the extended timestamp field), 3–7 RTMP / HTTP-FLV / WS-FLV consumers joining and leaving at seeded message indices (exact admission index via the stream hook's processed-count clock). " +
 			"one case in eight adds a second publisher taking over the name, with RTMP/FLV/WS-FLV joiners placed exactly between the two: none of their items may be a message of the first publisher. oracle per consumer: every item matches a published message (content hash), same type and ms timestamp, items published after admission form one contiguous in-order run without duplicates that starts no later than the first deliverable key frame and ends at the publisher's last message (RTMP: minus < merge_write_size). cell = consumer kind × config cell × join class.",
 		Assumptions: []string{"reference RTMP client/chunk codec, FLV and WebSocket parsers (harness/ref)", "publisher is paced so that no 1024-entry consumer queue can fill (no back-pressure)",
 			"the stream hook's OnMsg is called inside lal's fan-out critical section (read from the code); used only as a clock"},
@@ -310,6 +310,7 @@ func init() {
 				c.Violate("push/target-never-attached", fmt.Sprintf("%d of %d healthy relay push targets never received a publish (targets %v) | %v", len(res.PushTargetsMissing), 1+sc.PushMore, res.PushTargetsMissing, scenarioDesc(sc)), nil)
 			}
 			c.Count("push_targets_served", res.PushTargetsSeen)
+			c.Count("messages_published_as_extended_timestamp_deltas", res.ExtDeltas)
 			for _, rec := range res.Consumers {
 				if boundary >= 0 {
 					// only the consumers that joined the second publisher are judged here (what the
